@@ -434,6 +434,60 @@ func main() {
 	}
 	nB2 := len(shards) - nA - nB1
 
+	// sweep E: edge values of the server name, judged by the same reference (carried byte-exact,
+	// verification never skipped next to it, handshake outcome three-valued in the name match)
+	names := edgeServerNames(r.Thorough())
+	var flE, flEh []flags
+	for _, sn := range names {
+		for _, in := range bools {
+			for _, cb := range []string{"", "accept"} {
+				for _, ch := range bools {
+					flE = append(flE, flags{sn, in, cb, false, ch})
+				}
+			}
+			flEh = append(flEh, flags{sn, in, "", false, false})
+		}
+	}
+	eids := []identity{{"", "", "", ""}, {"", "", "E1", "kE1"}, {"R1", "kR1", "", ""}}
+	for _, id := range eids {
+		for _, ro := range full.roots() {
+			shards = append(shards, shard{"E", id, ro, flE, modesA})
+		}
+	}
+	escen := edgeScenarios()
+	for _, id := range eids[:2] {
+		for _, ro := range b1roots {
+			shards = append(shards, shard{"E", id, ro, flEh, []mode{{"auth", false, escen}, {"client", true, escen}}})
+		}
+	}
+	nE := len(shards) - nA - nB1 - nB2
+	// sweep F: edge shapes of the files (several blocks in either order, text before the block,
+	// CRLF, garbage after the block, empty file, odd paths) in every file slot, full product of the
+	// stated variant alphabets x loaded CA x pool, fields through every entry point + handshakes
+	fCert := []string{"E1", "E1lead", "E1crlf", "E1trail", "empty", "space", "nulpath"}
+	fKey := []string{"kE1", "kE1lead", "kE1crlf", "kE1trail", "empty", "kE2"}
+	fCA := []string{"A", "AB", "BA", "lead", "crlf", "trail", "empty", "space", "nulpath", "unipath"}
+	flF := []flags{{"", false, "", false, false}, {"srv.test", true, "accept", false, true}}
+	modesF := append(append([]mode{}, modesA...), mode{"auth", false, []string{"A/srv.test", "B/srv.test", "U/srv.test"}})
+	fids := []identity{{"", "", "", ""}}
+	for _, cf := range fCert {
+		for _, kf := range fKey {
+			fids = append(fids, identity{cf, kf, "", ""})
+		}
+	}
+	for _, id := range fids {
+		for _, ca := range fCA {
+			for _, lca := range []string{"", "C"} {
+				for _, pool := range []string{"", "P"} {
+					shards = append(shards, shard{"F", id, roots{ca, lca, pool}, flF, modesF})
+				}
+			}
+		}
+	}
+	nF := len(shards) - nA - nB1 - nB2 - nE
+	r.Set("sweep_E_edge_server_names", map[string]any{"names": names, "field_cases": len(flE) * len(eids) * len(full.roots()) * len(modesA), "handshake_configs": len(flEh) * 2 * len(b1roots) * 2, "scenarios": escen})
+	r.Set("sweep_F_edge_file_shapes", map[string]any{"cert_file": fCert, "key_file": fKey, "ca_file": fCA, "identities": len(fids), "roots": len(fCA) * 4, "flags": len(flF), "modes": len(modesF)})
+
 	r.Set("axis_cert_file", full.certFile)
 	r.Set("axis_key_file", full.keyFile)
 	r.Set("axis_loaded_cert", full.loadedCert)
@@ -449,7 +503,7 @@ func main() {
 		"cases": (len(full.identities()) + wrapperIDs*(len(modesA)-1)) * len(full.roots()) * len(flA)})
 	r.Set("sweep_B1_identity_handshakes", map[string]int{"identities": len(hsIdent.identities()), "roots": len(b1roots), "flags": len(b1flags), "modes": len(b1modes), "scenarios": len(scen)})
 	r.Set("sweep_B2_verification_handshakes", map[string]int{"identities": len(b2ids), "roots": len(full.roots()), "flags": len(flB2), "modes": len(b2modes), "scenarios": len(scen)})
-	r.Set("shards", map[string]int{"A": nA, "B1": nB1, "B2": nB2})
+	r.Set("shards", map[string]int{"A": nA, "B1": nB1, "B2": nB2, "E": nE, "F": nF})
 
 	// debugging aid (never set by registered commands): C18_SWEEPS=A,B1,B2 restricts the run; such a run is not exhaustive
 	restricted := false
@@ -607,7 +661,27 @@ func main() {
 		"http.Transport semantics are emulated for tls.Client handshakes by cloning the returned configuration and defaulting ServerName to the dialled host; the HTTP mode uses the returned transport itself",
 	)
 	M.cleanup()
-	r.Finish("sweep A: full product certificate file x key file x loaded certificate x loaded key x CA file x loaded CA x pool x server name x insecure x callback x tickets x cache (x entry point: quick = TLSClientAuth and TLSClient over everything; thorough = TLSClientAuth over everything, TLSTransport and TLSClient over the full product restricted to a 375-identity sub-alphabet), one call of the real entry point each, every field clause judged; sweeps B1/B2: the stated sub-products x server scenarios, a fresh call of the entry point plus one real TLS handshake over a buffered in-memory pipe against an in-process tls.Server each (through tls.Client on the returned configuration, or through http.Client.Do / RoundTrip of the returned object). evaluations = calls of TLSClientAuth/TLSTransport/TLSClient. non-trivial = first call of a case that returned a configuration (all field clauses evaluated) or returned an error where the reference demands one (certificate supplied, no usable pair); cases are distinct by construction (the enumerators never repeat an (options, entry point, mode) tuple within a sweep). history sweeps H-CA/H-ID/H-X: every ordered tuple with repetition of 2..3 (H-X: 2) steps of the stated step alphabets, executed as consecutive calls in one process on paths private to the sequence whose content is rewritten in place, made garbage or removed before each call; every call is judged with the per-call oracle for the material on disk at that moment, configurations returned earlier are re-judged after every later call, pairs additionally run handshakes on the last call; order reversal: one list of colliding cases over static files run forward and backward in one history, same result per case demanded", !restricted)
+	r.Finish("sweep A: full product certificate file x key file x loaded certificate x loaded key x CA file x loaded CA x pool x server name x insecure x callback x tickets x cache (x entry point: quick = TLSClientAuth and TLSClient over everything; thorough = TLSClientAuth over everything, TLSTransport and TLSClient over the full product restricted to a 375-identity sub-alphabet), one call of the real entry point each, every field clause judged; sweeps B1/B2: the stated sub-products x server scenarios, a fresh call of the entry point plus one real TLS handshake over a buffered in-memory pipe against an in-process tls.Server each (through tls.Client on the returned configuration, or through http.Client.Do / RoundTrip of the returned object). evaluations = calls of TLSClientAuth/TLSTransport/TLSClient. non-trivial = first call of a case that returned a configuration (all field clauses evaluated) or returned an error where the reference demands one (certificate supplied, no usable pair); cases are distinct by construction (the enumerators never repeat an (options, entry point, mode) tuple within a sweep). sweep E (edge values of the server name: IP literals v4/v6/v4-mapped/bracketed, trailing dot, case variants, punycode and raw IDN, runes beyond the BMP, space/NUL/CR LF/TAB/DEL, invalid UTF-8, BOM, U+2028, syntax look-alikes, prefixes, over-long names) x insecure x callback x cache x 3 identities x every root combination x entry point for the fields, and x 3 root baselines x 7 servers (DNS- and IP-named certificates of a supplied and of an unsupplied issuer) for handshakes, the name match being three-valued (byte-equal MUST, equal after case/trailing-dot/bracket/IPv4-mapped folding MAY, else MUST NOT); sweep F (edge shapes of files: bundles in either order, explanatory text before the block, CRLF, garbage after the block, empty file, single-space path, NUL in the path, valid bundle at a path with spaces and non-ASCII) full product certificate file x key file x CA file x loaded CA x pool x 2 flag sets x entry point + handshakes. history sweeps H-CA/H-ID/H-X: every ordered tuple with repetition of 2..3 (H-X: 2) steps of the stated step alphabets, executed as consecutive calls in one process on paths private to the sequence whose content is rewritten in place, made garbage or removed before each call; every call is judged with the per-call oracle for the material on disk at that moment, configurations returned earlier are re-judged after every later call, pairs additionally run handshakes on the last call; order reversal: one list of colliding cases over static files run forward and backward in one history, same result per case demanded", !restricted)
+}
+
+// edgeServerNames: representatives of the value classes a server name can take. The reference
+// treats every one the same way: carried byte for byte, and verification is on next to it.
+func edgeServerNames(thorough bool) []string {
+	l := []string{
+		"192.0.2.10", "2001:db8::1", // IP literals that certificates of the scenarios carry
+		"127.0.0.1", "::1", "::ffff:192.0.2.10", "[2001:db8::1]", // loopback, IPv4-mapped IPv6, bracketed
+		"srv.test.", "SRV.TEST", "Srv.Test", // trailing dot, case variants
+		"xn--bcher-kva.test", "b\u00fccher.test", "\U0001F600.test", // punycode, raw IDN, beyond the BMP
+		" ", "srv.test ", "srv.test\x00", "srv.test\r\nx: y", "srv\t.test", "\x7f", // space, NUL, CR LF, TAB, DEL
+		"\xff\xfe.test", "\ufeffsrv.test", "srv\u2028.test", // invalid UTF-8, BOM, line separator
+		"*.test", "*", "srv.test:443", "https://srv.test", "%s", "%", "..", "srv.tes", "srv.test.x", "#?&=;,\"\\{}/", // syntax look-alikes, prefixes
+		strings.Repeat("a", 63) + ".test", strings.Repeat("a.", 150) + "test", // long label, name beyond 253 bytes
+	}
+	if thorough {
+		l = append(l, "0.0.0.0", "192.0.2.010", "3221225994", "fe80::1%eth0", "::", "2001:DB8::1", "2001:0db8:0000:0000:0000:0000:0000:0001",
+			"other.test.", "OTHER.TEST", "-srv.test", "srv_test", "srv..test", ".", ".srv.test", strings.Repeat("x", 70000))
+	}
+	return l
 }
 
 type mode struct {
